@@ -285,3 +285,104 @@ def cond_mixed_support(ctx, prop):
         ctx.property_failure(None, f"mixed-support Cond ({prop}) raised {type(ex).__name__}: {str(ex)[:160]}", case)
     ctx.case(sample=case, nontrivial_key=("cond-mixed-support", prop))
     ctx.count("cond-mixed-support")
+
+
+def real_distribution_keyword_lanes(ctx, prop):
+    """Real distributions (the probe densities of the model-based runs take positional parameters only) whose parameter is passed by
+    KEYWORD and VARIES PER LANE / PER STEP inside a Vmap / a Scan: scores, assess, generate / update weights vs scipy, lane by lane.
+    A batching rule that maps the positional parameters but broadcasts the keyword ones keeps every internal identity
+    (weight == assess difference, score == -assess) and is only visible against an independent density."""
+    import jax.numpy as jnp
+    import jax.random as jr
+    from scipy import stats
+    G = impl.load()
+    normal = G.normal
+
+    @G.gen
+    def lane(mu, s):
+        x = normal(mu, 1.0) @ "x"
+        return normal(x, scale=s) @ "y"          # the per-lane parameter reaches the distribution by keyword
+
+    @G.gen
+    def model(mu, ss):
+        ys = lane.vmap(in_axes=(None, 0))(mu, ss) @ "v"
+        return normal(jnp.sum(ys), scale=2.0) @ "o"
+
+    @G.gen
+    def step(c, s):
+        y = normal(c, scale=s) @ "y"
+        return y * 0.5, y
+
+    @G.gen
+    def smodel(mu, ss):
+        c, ys = G.Scan(step, length=G.const(3))(mu, ss) @ "s"
+        return normal(c, scale=2.0) @ "o"
+
+    ss = jnp.array([0.5, 1.0, 2.0], jnp.float32)
+    mu = jnp.float32(0.3)
+
+    def lp_v(x, y, o, mu_):
+        x, y = np.asarray(x, np.float64), np.asarray(y, np.float64)
+        return float(np.sum(stats.norm(float(mu_), 1.0).logpdf(x) + stats.norm(x, np.asarray(ss, np.float64)).logpdf(y)) + stats.norm(y.sum(), 2.0).logpdf(float(o)))
+
+    def lp_s(y, o, mu_):
+        y = np.asarray(y, np.float64)
+        c, tot = float(mu_), 0.0
+        for t in range(3):
+            tot += stats.norm(c, float(ss[t])).logpdf(y[t])
+            c = y[t] * 0.5
+        return float(tot + stats.norm(c, 2.0).logpdf(float(o)))
+
+    def close(a, b):
+        return abs(float(a) - b) <= 2e-3 * (1 + abs(b))
+
+    case = {"kind": "keyword-lanes", "property": prop}
+    try:
+        key = jr.key(ctx.seed + 31)
+        # ---- Vmap
+        tr = G.seed(model.simulate)(key, mu, ss)
+        ch = tr.get_choices()
+        want = lp_v(ch["v"]["x"], ch["v"]["y"], ch["o"], mu)
+        if not close(-tr.get_score(), want):
+            ctx.property_failure(None, f"Vmap lane with a per-lane KEYWORD parameter: simulate score {float(tr.get_score()):.4f} != -log p = {-want:.4f} (scipy, lane by lane)", {**case, "op": "simulate"})
+        if prop == "C01":
+            a, _ = model.assess(ch, mu, ss)
+            if not close(a, want):
+                ctx.property_failure(None, f"Vmap lane with a per-lane KEYWORD parameter: assess {float(a):.4f} != log p = {want:.4f}", {**case, "op": "assess"})
+        ycon = jnp.array([0.4, -0.7, 1.9], jnp.float32)
+        t2, w = G.seed(model.generate)(key, {"v": {"y": ycon}}, mu, ss)
+        x2 = np.asarray(t2.get_choices()["v"]["x"], np.float64)
+        want_w = float(np.sum(stats.norm(x2, np.asarray(ss, np.float64)).logpdf(np.asarray(ycon, np.float64))))
+        if prop in ("C02", "C05") and not close(w, want_w):
+            ctx.property_failure(None, f"generate with the keyword-parameterised lane site constrained: weight {float(w):.4f} != sum over lanes of log N(y_i; x_i, s_i) = {want_w:.4f}", {**case, "op": "generate"})
+        if prop in ("C03", "C05"):
+            y3 = jnp.array([0.1, 0.2, -0.3], jnp.float32)
+            t3, w3, _ = model.update(t2, {"v": {"y": y3}}, mu, ss)
+            c2, c3 = t2.get_choices(), t3.get_choices()
+            want3 = lp_v(c3["v"]["x"], c3["v"]["y"], c3["o"], mu) - lp_v(c2["v"]["x"], c2["v"]["y"], c2["o"], mu)
+            if not close(w3, want3):
+                ctx.property_failure(None, f"update of the keyword-parameterised lane site: weight {float(w3):.4f} != density ratio {want3:.4f}", {**case, "op": "update"})
+        if prop in ("C04", "C05"):
+            from genjax import sel
+            t4, w4, _ = G.seed(model.regenerate)(jr.key(ctx.seed + 32), t2, sel({"v": sel("x")}), mu, ss)
+            c2, c4 = t2.get_choices(), t4.get_choices()
+            # regenerating x from its prior: weight = ratio of the downstream densities  N(y; x', s) / N(y; x, s)
+            want4 = float(np.sum(stats.norm(np.asarray(c4["v"]["x"], np.float64), np.asarray(ss, np.float64)).logpdf(np.asarray(c4["v"]["y"], np.float64))
+                                 - stats.norm(np.asarray(c2["v"]["x"], np.float64), np.asarray(ss, np.float64)).logpdf(np.asarray(c2["v"]["y"], np.float64))))
+            if not close(w4, want4):
+                ctx.property_failure(None, f"regenerate of the lanes' x: weight {float(w4):.4f} != ratio of the keyword-parameterised downstream densities {want4:.4f}", {**case, "op": "regenerate"})
+        # ---- Scan
+        trs = G.seed(smodel.simulate)(key, mu, ss)
+        cs = trs.get_choices()
+        want_s = lp_s(cs["s"]["y"], cs["o"], mu)
+        if not close(-trs.get_score(), want_s):
+            ctx.property_failure(None, f"Scan step with a per-step KEYWORD parameter: simulate score {float(trs.get_score()):.4f} != -log p = {-want_s:.4f}", {**case, "op": "scan-simulate"})
+        ts2, ws2 = G.seed(smodel.generate)(key, {"s": {"y": ycon}}, mu, ss)
+        want_ws = lp_s(ycon, ts2.get_choices()["o"], mu) - float(stats.norm(float(ycon[2]) * 0.5, 2.0).logpdf(float(ts2.get_choices()["o"])))
+        if prop in ("C02", "C05") and not close(ws2, want_ws):
+            ctx.property_failure(None, f"Scan generate with the keyword-parameterised step site constrained: weight {float(ws2):.4f} != {want_ws:.4f}", {**case, "op": "scan-generate"})
+    except Exception as ex:
+        impl.reset_handlers()
+        ctx.property_failure(None, f"keyword-parameterised lane sites raised {type(ex).__name__}: {str(ex)[:160]}", case)
+    ctx.case(sample=case, nontrivial_key=("keyword-lanes", prop))
+    ctx.count("keyword-lanes")
